@@ -11,6 +11,7 @@ import Nitime.Lemmas.F64
 import Nitime.Lemmas.C02
 import Nitime.Lemmas.C02Heap
 import Nitime.Lemmas.C02Series
+import Nitime.Lemmas.C02Parts
 
 namespace Nitime.C02.Props
 open Nitime Nitime.C02 Nitime.Generated
@@ -709,6 +710,50 @@ theorem rebuild_returns_source_counterexample :
       = some (.axis 1) ∧
     ((runH hIntended { axes := [axHalf], series := [] } [.rebuild 0 .none none, .inplace 0 (.mul 2)]).axes.map
       (·.dt)) = [1000000000000, 500000000000] := by
+  decide +kernel
+
+/-! ### below object granularity: sample buffers (session 3) -/
+
+/-- after ANY program of constructions (`UniformTime(axis…)`, `.copy()`, `TimeSeries(…, time=axis)`, reads of
+`.time`, `series.copy()`) and in-place operators on any of the objects: no two axis objects view one sample
+buffer, and the buffer of EVERY axis holds exactly the grid its own attributes describe (first sample `t0`,
+step `Δ`, `n` samples) — an in-place operator writes through the buffer of its target and through no other -/
+theorem buffers_private (a0 : Axis) (cs : List Cmd) :
+    (runHP false (startHP a0) cs).2.parts.length = (runHP false (startHP a0) cs).1.axes.length ∧
+    (runHP false (startHP a0) cs).2.parts.Nodup ∧
+    ∀ (j : Nat) (a : Axis) (b : Nat), (runHP false (startHP a0) cs).1.axes[j]? = some a →
+      (runHP false (startHP a0) cs).2.parts[j]? = some b →
+      (runHP false (startHP a0) cs).2.read b = (a.t0, a.dt, a.n) := by
+  have hi := PInv.run cs (PInv.start a0)
+  exact ⟨hi.len, hi.nodup, hi.holds⟩
+
+/-- the object layer of the two-layer run is the object store of `runH` (the theorems about `runH` apply) -/
+theorem runHP_objects (share : Bool) (hp : Heap × PHeap) (cs : List Cmd) :
+    (runHP share hp cs).1 = runH hIntended hp.1 cs := by
+  induction cs generalizing hp with
+  | nil => rfl
+  | cons c cs ih =>
+    simp only [runHP, runH, List.foldl_cons] at ih ⊢
+    rw [ih]
+    congr 1
+    simp only [stepHP, stepH]
+    cases he : exec hIntended hp.1 c with
+    | error e => rfl
+    | ok res =>
+      obtain ⟨h', r⟩ := res
+      cases c <;> simp only <;> split <;> rfl
+
+/-- COUNTEREXAMPLE for the class "the sample grid is memoised and handed out as a view" (`share = true`): `b =
+UniformTime(a)` gets `a`'s buffer, `a += 3 ps` then moves `b`'s samples while `b` still says it starts at 0;
+without the memo the two buffers differ and `b` keeps its grid -/
+theorem shared_grid_counterexample :
+    (let hp := runHP true ({ axes := [axHalf], series := [] }, PHeap.empty.alloc true axHalf.grid)
+        [.rebuild 0 .none none, .inplace 0 (.addS .time 3)]
+     hp.2.parts = [0, 0] ∧ (hp.1.axes.map (·.t0)) = [axHalf.t0 + 3, axHalf.t0] ∧
+     hp.2.read 0 = (axHalf.t0 + 3, axHalf.dt, axHalf.n)) ∧
+    (let hp := runHP false (startHP axHalf) [.rebuild 0 .none none, .inplace 0 (.addS .time 3)]
+     hp.2.parts = [0, 1] ∧ hp.2.read 1 = (axHalf.t0, axHalf.dt, axHalf.n) ∧
+     hp.2.read 0 = (axHalf.t0 + 3, axHalf.dt, axHalf.n)) := by
   decide +kernel
 
 /-- non-vacuity: the programs above do run (nothing is skipped), and every in-place operator is
